@@ -90,39 +90,59 @@ func answersWith(o geojson.Object, extra []geojson.Object) (s string) {
 }
 
 // expectedForeign: foreign members the output must carry.
-func expectedForeign(o *refdoc.Obj, sb *strings.Builder) {
+// c06CircleOn: the option set under test reads the Circle convention. Then
+// the type / radius / radius_units members of such a Feature's properties are
+// the convention's own (they come back in its canonical spelling: a missing
+// radius as 0, units as "m") and are not compared as foreign members; any other
+// member still is. Set per call of c06One (one goroutine per call chain).
+func foreignMember(o *refdoc.Obj, m refdoc.Member, circleOn bool, sb *strings.Builder) {
+	sb.WriteString(strconv.Quote(m.Key))
+	sb.WriteByte(':')
+	if circleOn && o.Circle && m.Key == "properties" && m.Val.Kind == 'o' {
+		sb.WriteByte('{')
+		for i, k := range m.Val.Keys {
+			if k == "type" || k == "radius" || k == "radius_units" {
+				continue
+			}
+			sb.WriteString(strconv.Quote(k) + ":" + m.Val.Vals[i].Canon() + ",")
+		}
+		sb.WriteByte('}')
+	} else {
+		sb.WriteString(m.Val.Canon())
+	}
+	sb.WriteByte(',')
+}
+
+func expectedForeign(o *refdoc.Obj, sb *strings.Builder) { expectedForeignC(o, sb, false) }
+func actualForeign(o *refdoc.Obj, sb *strings.Builder)   { actualForeignC(o, sb, false) }
+
+func expectedForeignC(o *refdoc.Obj, sb *strings.Builder, circleOn bool) {
 	if o == nil {
 		return
 	}
 	sb.WriteByte('{')
 	for _, m := range o.Foreign {
-		sb.WriteString(strconv.Quote(m.Key))
-		sb.WriteByte(':')
-		sb.WriteString(m.Val.Canon())
-		sb.WriteByte(',')
+		foreignMember(o, m, circleOn, sb)
 	}
 	if o.Type == "Feature" && !o.HasProps {
 		sb.WriteString(`"properties":{},`)
 	}
 	for _, c := range o.Children {
-		expectedForeign(c, sb)
+		expectedForeignC(c, sb, circleOn)
 	}
 	sb.WriteByte('}')
 }
 
-func actualForeign(o *refdoc.Obj, sb *strings.Builder) {
+func actualForeignC(o *refdoc.Obj, sb *strings.Builder, circleOn bool) {
 	if o == nil {
 		return
 	}
 	sb.WriteByte('{')
 	for _, m := range o.Foreign {
-		sb.WriteString(strconv.Quote(m.Key))
-		sb.WriteByte(':')
-		sb.WriteString(m.Val.Canon())
-		sb.WriteByte(',')
+		foreignMember(o, m, circleOn, sb)
 	}
 	for _, c := range o.Children {
-		actualForeign(c, sb)
+		actualForeignC(c, sb, circleOn)
 	}
 	sb.WriteByte('}')
 }
@@ -268,8 +288,9 @@ func c06One(text string, os optSet, emit func(class string, c rt.Case, exp, got 
 	}
 	e.Reset()
 	a.Reset()
-	expectedForeign(ref, &e)
-	actualForeign(ref1, &a)
+	circleOn := os.O == nil || !os.O.DisableCircleType
+	expectedForeignC(ref, &e, circleOn)
+	actualForeignC(ref1, &a, circleOn)
 	if e.String() != a.String() {
 		emit("foreign-members-differ", mk(), e.String(), a.String())
 		return
